@@ -14,34 +14,204 @@ ID = "C17"
 RULE = ("exhaustive: one record of every length 1..L at every line width 1..W (quick L<=7,W<=8; thorough L<=12,W<=13) x EVERY interval "
         "[a,b) with 0<=a<b<=length, fetched through the library-built index, through a faidx-style supplied index and through the "
         "string-encoded-chromosome path; files of 2..4 records mixing widths, single-line records, full/short last lines and names "
-        "with descriptions: index rows of the written .fai, keys, contig lengths, whole-contig reads, interval batches across "
-        "records, Genome.from_file(fasta). Non-trivial = an interval touching or crossing a line break, W = 1, a short last line, "
+        "with descriptions (spaces, tabs, VT/FF), one file in four several hundred bytes long: the written .fai text, index rows, "
+        "keys, contig lengths, whole-contig reads, interval batches across records, Genome.from_file(fasta), create_index over "
+        "several chunks. Non-trivial = an interval touching or crossing a line break, W = 1, a short last line, "
         ">= 2 records or a description")
 EXHAUSTIVE = {"quick": True, "thorough": True}
-MODEL_OPS = {"index", "fetch", "contig"}
+MODEL_OPS = {"index", "fetch", "contig", "genome", "index_chunked"}
 PARALLEL = 0
 ASSUMPTIONS = [
     "the OS file is modelled as a byte list (seek/read = drop/take; readinto a zero-filled buffer); LF line ends only (CRLF FASTA is outside C17's quantifier)",
     "NumPy reshape / column slice / ravel / delete as list functions (reshapeCols, deleteIdx)",
-    "the index is built from one chunk (create_index reads with the default chunk size, far above the sizes explored); "
-    "offset accumulation across chunks is exercised only by the 'index_chunked' correspondence cases, not proved",
-    "names are non-empty, start with a non-blank, contain no '_' for the Genome cases (Genome filters such names by default); descriptions contain no tab",
+    "multi-chunk index building is proved for every chunking that cuts at record boundaries (index_chunks); that the reader "
+    "cuts wrapped FASTA only right before a header line is C01's theorem (readAll_bytes_fasta); the correspondence runs the real "
+    "create_index with a lowered default chunk size and gives the Lean model the chunk sizes the real reader delivered",
+    "the .fai is written column-wise by ints_to_strings (element-wise by C18.batch_independent) and read with Python int() / str.split "
+    "(modelled as digit-string value / split on ASCII whitespace)",
+    "names are non-empty, start with a non-blank, contain no '_' for the Genome cases (Genome filters such names by default); "
+    "descriptions may contain spaces, tabs, VT/FF; no CR/LF",
 ]
-TRUSTED_EXTRA = ["temporary FASTA/.fai files written by the harness in a private tempfile.mkdtemp() directory"]
+TRUSTED_EXTRA = ["temporary FASTA/.fai files written by the harness in a private tempfile.mkdtemp() directory",
+                 "harness/trace.py symbolic tracer + the recording file object used to capture the arguments of seek/read"]
 
 MANIFEST = {
     "text": "Lean 4 theorems for all sequences / widths / intervals: layout (byte posOf W i of the wrapped block is base i; newlines "
             "exactly at (j+1)(W+1)-1), index_rows (the index built from any FASTA of well-formed records lists name, true length, "
             "offset of the first base, bases per line, bytes per line), fetch_interval (for every 0<=a<=b<=L the row/mod byte range with "
             "the newline positions deleted is exactly seq[a:b], wherever a and b fall relative to line breaks, W=1 included), "
-            "fetch_contig, contig_lengths (+ refutation of the rule shipped before the repair, which reported bases-per-line). "
+            "fetch_contig, random_access (end to end on a whole file), contig_lengths (+ refutation of the rule shipped before the "
+            "repair), index_chunks (offsets add up across chunks for every record-aligned chunking), fai_roundtrip / genome_sizes / "
+            "fai_file (the written .fai read back by read_index and by Genome.from_file gives the built rows / the true lengths), "
+            "traced_kernel / traced_bytes_to_read / fetch_uses_traced (the model's seek position, read length, deleted-newline count, "
+            "start column, row count and bytes-to-read ARE the expressions symbolically traced from the running "
+            "get_interval_sequences / __getitem__ on every run into Gen/C17.lean; the row length the code claims is b-a). "
             "Correspondence: the real open_indexed / get_interval_sequences (both code paths) / __getitem__ / get_contig_lengths / "
-            "written .fai / Genome.from_file on temporary files vs the Lean model, the Lean spec and a Python oracle; exhaustive over "
-            "length x width x every interval.",
-    "note": "File I/O is modelled as a byte list; multi-chunk index building is corresponded, not proved; CRLF is outside the property.",
-    "technique": "Lean 4 proof (induction over wrapped lines) + exhaustive small-scope differential correspondence with the implementation",
+            "written .fai text / Genome.from_file / multi-chunk create_index on temporary files vs the Lean model, the Lean spec and "
+            "a Python oracle; exhaustive over length x width x every interval.",
+    "note": "File I/O is modelled as a byte list; the fast (string-encoded chromosome) interval path is corresponded, its arithmetic is "
+            "not traced; CRLF is outside the property.",
+    "technique": "Lean 4 proof (induction over wrapped lines) + symbolic tracing of the offset arithmetic + exhaustive small-scope differential correspondence",
     "design": "§6 C17",
 }
+
+# ---------------------------------------------------------------- symbolic trace of the row/offset arithmetic -> Gen/C17.lean
+
+_TRACED = []
+_KERNELS = ["trSeek", "trReadLen", "trRowLen", "trNDel", "trStartMod", "trNRows", "trBytesToRead"]
+_PARAMS = "(a b rlen offset lenc lenb : Int)"
+# what the traced expressions are on the tree the proofs were written for (used only if tracing fails)
+_FALLBACK = {
+    "trSeek": "(offset + (((Int.fdiv a lenc) * lenb) + (Int.fmod a lenc)))",
+    "trReadLen": "((((Int.fdiv b lenc) * lenb) + (Int.fmod b lenc)) - (((Int.fdiv a lenc) * lenb) + (Int.fmod a lenc)))",
+    "trRowLen": "(((((Int.fdiv b lenc) * lenb) + (Int.fmod b lenc)) - (((Int.fdiv a lenc) * lenb) + (Int.fmod a lenc))) - ((Int.fdiv b lenc) - (Int.fdiv a lenc)))",
+    "trNDel": "((Int.fdiv b lenc) - (Int.fdiv a lenc))",
+    "trStartMod": "(Int.fmod a lenc)",
+    "trNRows": "(Int.fdiv ((rlen + lenc) - 1) lenc)",
+    "trBytesToRead": "((((Int.fdiv ((rlen + lenc) - 1) lenc) - 1) * lenb) + (rlen - (((Int.fdiv ((rlen + lenc) - 1) lenc) - 1) * lenc)))",
+}
+
+
+def _frame_locals(tb, name):
+    out = None
+    while tb is not None:
+        if tb.tb_frame.f_code.co_name == name:
+            out = dict(tb.tb_frame.f_locals)
+        tb = tb.tb_next
+    return out
+
+
+def _trace_kernels():
+    """run the REAL IndexedFasta.get_interval_sequences / __getitem__ on symbolic index values and interval ends with a
+    recording file object; the seek position, read length, claimed row length, number of deleted newlines, start column,
+    row count and bytes-to-read are taken from what the code passed to the file / held in its frame when it reached the
+    first data-dependent step"""
+    import types
+    from .. import trace
+    from ..trace import var, Sym, NotTraceable
+    from bionumpy.io.indexed_fasta import IndexedFasta
+    out = {}
+
+    class FakeFile:
+        def __init__(self):
+            self.seeks, self.reads, self.into = [], [], []
+
+        def seek(self, p):
+            self.seeks.append(p)
+
+        def read(self, n):
+            self.reads.append(n)
+            return b""
+
+        def readinto(self, buf):
+            self.into.append(buf)
+
+    class Chrom:
+        encoding = object()
+
+        def to_string(self):
+            return "x"
+
+    class Iv:
+        chromosome = Chrom()
+        start, stop = var("a"), var("b")
+
+    class Ivs:
+        chromosome = Chrom()
+        start, stop = np.array([0]), np.array([1])
+
+        def __iter__(self):
+            return iter([Iv()])
+
+    def obj():
+        o = types.SimpleNamespace()
+        o._index = {"x": {"lenb": var("lenb"), "rlen": var("rlen"), "lenc": var("lenc"), "offset": var("offset")}}
+        o._f_obj = FakeFile()
+        return o
+
+    def text(sym):
+        if not isinstance(sym, Sym):
+            raise NotTraceable("not symbolic")
+        return trace._int(sym.e)
+
+    try:
+        o = obj()
+        try:
+            IndexedFasta.get_interval_sequences(o, Ivs())
+        except NotTraceable as e:
+            loc = _frame_locals(e.__traceback__, "get_interval_sequences")
+        else:
+            loc = None
+        if loc is not None and len(o._f_obj.seeks) == 1 and len(o._f_obj.reads) == 1 and len(loc.get("lengths", [])) == 1:
+            out["trSeek"] = text(o._f_obj.seeks[0])
+            out["trReadLen"] = text(o._f_obj.reads[0])
+            out["trRowLen"] = text(loc["lengths"][0])
+            out["trNDel"] = text(loc["stop_row"] - loc["start_row"])
+            out["trStartMod"] = text(loc["start_mod"])
+    except Exception:
+        pass
+    try:
+        class Stop(Exception):
+            pass
+
+        class FakeBuf:
+            def __init__(self):
+                self.slices = []
+
+            def __getitem__(self, k):
+                self.slices.append(k)
+                return self
+
+            def __gt__(self, o):
+                return True
+
+            def reshape(self, *a):
+                raise Stop()
+
+        o = obj()
+        bufs = []
+        real_empty = np.empty
+
+        def fake_empty(shape, *a, **k):
+            if isinstance(shape, Sym):
+                bufs.append(FakeBuf())
+                return bufs[-1]
+            return real_empty(shape, *a, **k)
+
+        np.empty = fake_empty
+        try:
+            IndexedFasta.__getitem__(o, "x")
+        except Stop as e:
+            loc = _frame_locals(e.__traceback__, "__getitem__")
+            out["trNRows"] = text(loc["n_rows"])
+            out["trBytesToRead"] = text(loc["bytes_to_read"])
+        finally:
+            np.empty = real_empty
+    except Exception:
+        pass
+    return out
+
+
+def regenerate():
+    tr = _trace_kernels()
+    _TRACED[:] = [k for k in _KERNELS if k in tr]
+    out = ["/-! GENERATED on every run by harness/props/c17.py from the package imported from /repo: symbolic trace of the real",
+           "`IndexedFasta.get_interval_sequences` / `__getitem__` row/offset arithmetic (executed on symbolic index values `rlen offset",
+           "lenc lenb` and interval ends `a b` with a recording file object): the position passed to `seek`, the length passed to",
+           "`read`, the row length the code claims, the number of newline positions it deletes, the start column, the row count and",
+           "the bytes read for a whole contig. Do not edit. -/",
+           "set_option linter.unusedVariables false", "namespace Gen.C17", ""]
+    for k in _KERNELS:
+        out.append(f"def {k} {_PARAMS} : Int :=\n  {tr.get(k, _FALLBACK[k])}")
+    out.append("/-- kernels that were really traced this run (the others fall back to the formula the proofs were written for) -/")
+    out.append("def traced : List String := [" + ", ".join(f'"{k}"' for k in _TRACED) + "]")
+    out += ["", "end Gen.C17", ""]
+    return [("BnpVerif/Gen/C17.lean", "\n".join(out))]
+
+
+def extra_evidence():
+    return {"traced_kernels": list(_TRACED)}
+
 
 _TMP = None
 
@@ -81,7 +251,7 @@ def true_index(recs):
 def in_domain(recs):
     names = [name_of(r) for r in recs if r["h"].split()]
     return (len(recs) >= 1 and len(names) == len(recs) == len(set(names))
-            and all(len(r["seq"]) >= 1 and r["w"] >= 1 and not r["h"][0].isspace() and "\t" not in r["h"] and "\n" not in r["h"]
+            and all(len(r["seq"]) >= 1 and r["w"] >= 1 and not r["h"][0].isspace() and "\n" not in r["h"] and "\r" not in r["h"]
                     and all(ch in "ACGTacgtNn" for ch in r["seq"]) for r in recs))
 
 
@@ -95,14 +265,16 @@ def _seq(rng, n):
     return "".join(rng.choice("ACGT") for _ in range(n))
 
 
-def _rand_recs(rng, maxlen=12, maxw=9):
-    k = rng.choice([1, 2, 2, 3, 4])
+def _rand_recs(rng, maxlen=12, maxw=9, big_file=False):
+    k = rng.choice([3, 4, 5, 6, 8]) if big_file else rng.choice([1, 2, 2, 3, 4])
     names = rng.sample(["a", "b", "chr1", "chr2", "X", "seq10", "c", "MT"], k)
     recs = []
     for nm in names:
         n = rng.randint(1, maxlen)
         w = rng.choice([1, 2, 3, rng.randint(1, maxw), n, n + 1, max(1, n - 1), max(1, n // 2), 60])
-        h = nm + rng.choice(["", "", " desc", " two words", "  x=1 y", " len=%d" % n])
+        h = nm + rng.choice(["", "", " desc", " two words", "  x=1 y", " len=%d" % n, "\tdesc", "\t\ttab tab\t", " a\tb  c ", "\x0bvt", "\x0cff x", " trailing "])
+        if rng.random() < 0.25:
+            w = rng.choice([1, n, max(1, n // 2) if n % max(1, n // 2) == 0 else n])      # W = 1 / exactly full last line
         recs.append({"h": h, "seq": _seq(rng, n), "w": w})
     return recs
 
@@ -135,7 +307,8 @@ def cases(tier, rng):
             yield {"op": "contig", "recs": recs, "supplied": False}
     # 3. random multi-record files
     for _ in range(1500 if big else 120):
-        recs = _rand_recs(rng, 30 if big else 12)
+        # one file in four is several hundred bytes long (offsets beyond one line / one small chunk)
+        recs = _rand_recs(rng, 70, 25, big_file=True) if rng.random() < 0.25 else _rand_recs(rng, 30 if big else 12)
         yield {"op": "index", "recs": recs}
         yield {"op": "contig", "recs": recs, "supplied": rng.random() < 0.3}
         ivs = []
@@ -149,8 +322,8 @@ def cases(tier, rng):
         yield {"op": "fetch", "recs": recs, "ivs": ivs, "supplied": rng.random() < 0.3, "string": rng.random() < 0.5}
         if rng.random() < (1.0 if big else 0.5):
             yield {"op": "genome", "recs": recs}
-        if rng.random() < 0.5:
-            yield {"op": "index_chunked", "recs": recs, "chunk": rng.choice([16, 24, 40, 64, 200])}
+        if rng.random() < 0.6:
+            yield {"op": "index_chunked", "recs": recs, "chunk": rng.choice([16, 24, 40, 64, 100, 200])}
 
 
 def nontrivial(c):
@@ -195,7 +368,7 @@ def _impl(c):
             lengths = [[k, int(v)] for k, v in f.get_contig_lengths().items()]
             if keys != [k for k, _ in lengths]:
                 return {"err": "keys-differ", "keys": keys}
-            return {"rows": rows, "lengths": lengths}
+            return {"rows": rows, "lengths": lengths, "fai": open(p + ".fai").read()}
         if op == "index_chunked":
             # the library's own create_index, made to read the file in several chunks by lowering the default
             # chunk size of the reader it calls (read_chunks() is called without arguments there)
@@ -253,7 +426,8 @@ def oracle(c):
     op = c["op"]
     by = {name_of(r): r for r in recs}
     if op == "index":
-        return {"rows": true_index(recs), "lengths": [[name_of(r), len(r["seq"])] for r in recs]}
+        return {"rows": true_index(recs), "lengths": [[name_of(r), len(r["seq"])] for r in recs],
+                "fai": "".join("\t".join(str(x) for x in row) + "\n" for row in true_index(recs))}
     if op == "index_chunked":
         return {"rows": true_index(recs)}
     if op == "contig":
@@ -272,13 +446,30 @@ def oracle(c):
     return SKIP
 
 
-def agree(c, got, exp):
+def model_request(c):
     if c["op"] == "index_chunked":
-        # the chunked reader (C01's subject) may deliver fewer records at small chunk sizes; C17 constrains the rows that
-        # are reported: each must be the true row of its record
-        if not isinstance(got, dict) or "rows" not in got:
-            return isinstance(got, dict) and got.get("err") in ("other:RuntimeError", "other:AssertionError")
-        return all(r in exp["rows"] for r in got["rows"]) and len({r[0] for r in got["rows"]}) == len(got["rows"])
+        # the Lean model indexes the same chunks the real reader delivers (their sizes), so that it is the offset
+        # accumulation that is compared
+        from bionumpy.io.multiline_buffer import FastaIdxBuffer
+        from bionumpy.io.files import bnp_open
+        d, p = _write(c)
+        try:
+            sizes = [int(b.byte_size[0]) for b in bnp_open(p, buffer_type=FastaIdxBuffer).read_chunks(min_chunk_size=c["chunk"])]
+        except Exception:
+            sizes = [len(file_text(c["recs"]))]
+        finally:
+            shutil.rmtree(d, ignore_errors=True)
+        return dict(c, sizes=sizes)
+    return c
+
+
+def agree_model(c, got, m):
+    if c["op"] == "genome" and isinstance(got, dict) and "seqs" in got:
+        got = dict(got, seqs=[[k, s.upper()] for k, s in got["seqs"]], sub=[s.upper() for s in got["sub"]])
+    return core.canon(got) == core.canon(m)
+
+
+def agree(c, got, exp):
     if c["op"] == "genome" and isinstance(got, dict) and "seqs" in got:
         got = dict(got, seqs=[[k, s.upper()] for k, s in got["seqs"]], sub=[s.upper() for s in got["sub"]])
     return core.canon(got) == core.canon(exp)
